@@ -42,6 +42,9 @@ def generate(seed, tier="quick", faults=True, light=False, **kw):
     ctx = GC.make_ctx(r, o)
     nfiles = 1 if single else (r.randint(20, 40) if (r.random() < 0.02 and not light) else r.randint(1, 8))
     paths, dirs, hidden = GC.gen_tree(r, nfiles, hidden=not single, dirs=not single)
+    if single and r.random() < 0.25:
+        # a file that is named explicitly is processed whatever its name looks like (the dot-file rule is about directory walks)
+        paths = [posixpath.join(posixpath.dirname(paths[0]), r.choice([".running-config", ".hidden.cfg", "..cfg"]))]
     files = []
     for p in paths:
         files.append({"path": p, "lines": GC.gen_lines(r, ctx, secrets, o, r.randint(0, 14) if nfiles <= 8 else r.randint(0, 3), long_ok=not light)})
